@@ -657,7 +657,7 @@ fn is_url(s: &str) -> bool {
     let Some((scheme, rest)) = s.split_once("://") else {
         return false;
     };
-    if rest.is_empty() || !scheme.chars().all(|c| c.is_alphabetic()) {
+    if rest.is_empty() || scheme.is_empty() || !scheme.chars().all(|c| c.is_alphabetic()) {
         return false;
     }
     let host = match rest.split_once('/') {
